@@ -1639,8 +1639,21 @@ func (wr *vfWRun) step(opi int, op vfOp) {
 		for _, v := range wr.views {
 			before = append(before, v.reservePre())
 		}
+		// which wrapped cache would refuse (read-only evaluation of the documented refusal on each cache's cells)
+		refuser := -1
+		for i, v := range wr.views {
+			for _, cell := range v.cache.cells {
+				if slices.Contains(cell.sequences, op.a) && !(cell.pos >= int32(op.b) && cell.pos < int32(op.c)) &&
+					cell.pos >= int32(op.c) && len(cell.sequences) > 1 && refuser < 0 {
+					refuser = i
+				}
+			}
+		}
 		err := wr.w.Remove(op.a, int32(op.b), int32(op.c))
 		x = "R:" + vfErrClass(err)
+		if out := wr.views[0].out; out != nil && refuser >= 0 {
+			out.Count(fmt.Sprintf("wrapper_remove_refused_by_cache_%d", refuser))
+		}
 		if err != nil && !wr.views[0].shadow.unsound {
 			for i, v := range wr.views {
 				if !v.metaSame(before[i]) {
@@ -1888,6 +1901,25 @@ func (g *vfGen) reserve() {
 	g.do(op)
 }
 
+// forkShift: fork a short prefix off a sequence, then remove from the middle of that prefix in the source: the
+// cells that would have to shift are shared in the full cache, while a sliding-window cache may have evicted
+// the shared prefix already (the wrapped caches then disagree on whether the removal is possible: F29)
+func (g *vfGen) forkShift() {
+	s := g.seq()
+	L := g.length[s]
+	if L < 3 || g.nseq < 2 {
+		g.fwd(false)
+		return
+	}
+	d := (s + 1 + g.r.Intn(g.nseq-1)) % g.nseq
+	n := int32(g.r.Range(2, int(min(L-1, 4))))
+	g.do(vfOp{kind: 'C', a: s, b: d, c: int(n)})
+	g.length[d] = n
+	b := int32(g.r.Range(0, int(n)-2))
+	e := b + 1
+	g.remove(s, b, e, L-(e-b))
+}
+
 func (g *vfGen) clear(s int) {
 	g.do(vfOp{kind: 'R', a: s, b: 0, c: math.MaxInt32})
 	g.length[s] = 0
@@ -2102,6 +2134,8 @@ func vfGenWHistory(r *zzverif.Rng) (vfConfig, []vfOp) {
 	for len(g.ops) < nops && !g.dead {
 		if r.Chance(1, 12) {
 			g.reserve()
+		} else if r.Chance(1, 5) {
+			g.forkShift()
 		} else if r.Chance(1, 3) {
 			g.fwd(false)
 		} else {
